@@ -48,7 +48,7 @@ TIERS = {
 FAULT_KINDS = ["illtyped_construct", "illtyped_subst", "unsupported", "undefined_symbol", "bad_smtlib", "bad_hr",
                "unsupported_command", "redefine_symbol", "stream_eio", "solver_convert", "solver_unknown",
                "script_strict", "parse_declares", "bad_interpretation", "arith_error_subst", "sl_error", "bad_size_measure",
-               "nonincr_is_sat", "readd_solver", "model_incomplete"]
+               "nonincr_is_sat", "readd_solver", "model_incomplete", "bad_preference_list", "solver_reset_refused", "script_evaluate"]
 SERVICES = ["simplify", "substitute", "free_vars", "atoms", "theory", "types", "size", "serialize", "to_smtlib",
             "nnf", "cnf", "aig", "prenex", "is_qf", "logic", "model_value"]
 
@@ -250,6 +250,9 @@ def gen_plan(tape, cfg):
                 o["how"] = tape.choice(["nonbool", "convert"], "nonincr.how")
             elif kind == "readd_solver":
                 o["name"] = "gen%d" % tape.draw(2, "readd.name")
+            elif kind == "script_evaluate":
+                o["f"] = bp.gen_term(tape, bp.BOOL, 2, sctx)
+                o["prio"] = tape.choice(["single-obj", "lex", "box"], "seval.prio")
             ops.append(o)
             if o["kind"] in ("illtyped_construct", "illtyped_subst", "unsupported", "redefine_symbol",
                              "undefined_symbol", "bad_hr", "bad_size_measure") and tape.chance(2, 3, "retry?"):
@@ -705,6 +708,23 @@ def execute(plan, tape):
                             return ["generic", list(args), [str(l) for l in logics], fa.is_generic_solver(o["name"])]
                         pa, pb = on(A, lambda: info(A)), on(B, lambda: info(B))
                         same("factory.get_generic_solver_info", pa, pb, None, o["name"])
+                    if fk == "bad_preference_list":
+                        def prefs(s_):
+                            fa = s_.env.factory
+                            return ["preferences", [n for n in fa.preferences["Solver"] if not n.startswith("ref")],
+                                    sum(1 for n in fa.preferences["Solver"] if n.startswith("ref"))]
+                        pa, pb = on(A, lambda: prefs(A)), on(B, lambda: prefs(B))
+                        same("factory.preferences", pa, pb, None, "after a refused preference list")
+                    if fk == "script_evaluate":
+                        def ev(s_):
+                            log = s_.escript.evaluate(_script_solver(s_, tape, fail=False))
+                            return [[name, (r if isinstance(r, (bool, list, tuple)) or r is None else type(r).__name__)]
+                                    for name, r in log if name in ("check-sat", "get-objectives")]
+                        pa, pb = on(A, lambda: ev(A)), on(B, lambda: ev(B))
+                        same("script.evaluate", pa, pb, None, "the script evaluated on a new solver after an aborted evaluation")
+                    if fk == "solver_reset_refused":
+                        state["obj_failed"].add("solver")
+                        probe("reset_refused_by_backend")
                     if fk == "model_incomplete":
                         pa, pb = [on(s_, lambda s_=s_: s_.pmodel.get_value(bp.build(term, s_.env))) for s_ in (A, B)]
                         same("model.get_value", pa, pb, term, "completed value after an incomplete-model refusal")
@@ -773,6 +793,15 @@ def _declared_by_wellformed_command(msg, texts):
     return False
 
 
+def _script_solver(side, tape, fail):
+    from dsim.brute import script_optimizer_class
+    from pysmt.logics import QF_BV
+    s = script_optimizer_class()(side.env, QF_BV, table=side.solver.table, tape=tape, policy="first")
+    if fail:
+        s.fault_plan["unknown_at"] = {1}
+    return s
+
+
 def _safe_str(x):
     try:
         return str(x)
@@ -830,6 +859,17 @@ def _prepare_fault(o, term, symbols, side):
         from pysmt.logics import QF_LIA
         if o["name"] not in env.factory.all_solvers():
             env.factory.add_generic_solver(o["name"], ["/bin/false"], [QF_LIA])
+    if o["kind"] == "script_evaluate":
+        # one script object per twin, with objectives; it is evaluated on brand-new solvers
+        from pysmt.smtlib.parser import SmtLibParser
+        bvs = sorted(n for n in side.solver.table.names if bp.is_bv(symbols.get(n, bp.BOOL)))
+        lines = ["(declare-fun %s () %s)" % (bp.smt_symbol(n), bp.smt_sort(symbols[n])) for n in side.solver.table.names]
+        lines.append("(set-option :opt.priority %s)" % o["prio"])
+        lines.append("(assert %s)" % bp.to_smtlib(o["f"]))
+        for n in bvs[:2]:
+            lines.append("(minimize %s)" % bp.smt_symbol(n))
+        lines += ["(check-sat)", "(get-objectives)"]
+        side.escript = SmtLibParser(environment=env).get_script(StringIO("\n".join(lines) + "\n"))
     if o["kind"] == "model_incomplete":
         if getattr(side, "pmodel", None) is None:
             side.pmodel = calls.partial_model(env, symbols)
@@ -945,6 +985,21 @@ def _fault_fn(o, term, symbols, user, side, tape):
             else:
                 bad = mgr.And(f, mgr.GT(mgr.Symbol("u", bp.to_pysmt_type(bp.REAL, env)), mgr.Real(0)))
             return side.ni.is_sat(bad)
+        return fn, None
+    if fk == "bad_preference_list":
+        return (lambda: env.factory.set_solver_preference_list([])), None
+    if fk == "script_evaluate":
+        def fn():
+            # the solver gives up at its first check: the evaluation stops after the objectives were read
+            return side.escript.evaluate(_script_solver(side, tape, fail=True))
+        return fn, None
+    if fk == "solver_reset_refused":
+        def fn():
+            side.solver.fault_plan["refuse_next_reset"] = True
+            try:
+                return side.solver.reset_assertions()
+            finally:
+                side.solver.fault_plan["refuse_next_reset"] = False
         return fn, None
     if fk == "readd_solver":
         def fn():
